@@ -42,7 +42,7 @@ PROPS = {
     'C01': dict(families=[_stream, _nesting], extra_props=['C01_sequence', 'C01_noguess'], trusted_base=[PY, CODECS, JSON]),
     'C02': dict(families=[_stream, _calls], extra_props=['C02_spec'], trusted_base=[PY, CODECS, JSON]),
     'C03': dict(families=[_foreign, _specfile], extra_props=['C03_spec', 'C03_defects', 'C03_text'], trusted_base=[PY, CODECS, JSON]),
-    'C04': dict(families=[_nesting, _stream], trusted_base=[PY, CODECS]),
+    'C04': dict(families=[_nesting, _stream, _foreign], trusted_base=[PY, CODECS]),
     'C05': dict(families=[_dom], extra_props=['C05_full'], trusted_base=[PY, CODECS, JSON]),
     'C06': dict(families=[_dom], extra_props=['C06_full', 'C06_foreign'], trusted_base=[PY, CODECS, JSON]),
     'C07': dict(families=[_truncate], extra_props=['C07_file'], trusted_base=[PY, CODECS, JSON]),
